@@ -74,6 +74,36 @@ func runC13(c *run.Ctx) {
 				break
 			}
 		}
+		if i%5 == 0 {
+			// a root is a world of its own: what one root was told about a BUILT-IN type (a directive put on String by an
+			// extension) is nothing another root knows, and another root accepts the very same documents
+			ext := fmt.Sprintf("directive @zzMark%d(n: Int = %d) on SCALAR\n\nextend scalar String @zzMark%d\n\nextend scalar Int @zzMark%d(n: 2)\n", i, i, i, i)
+			if xerr := root.ParseString(ext); xerr != nil {
+				c.Violation("c13-wellformed-later-load-rejected", map[string]interface{}{"sdl": sdl, "later_load": ext, "error": xerr.Error()})
+			} else {
+				other, oerr := loadSDL("type Query { a: String b: Int }")
+				if oerr != nil {
+					c.Violation("c13-wellformed-rejected", map[string]interface{}{"sdl": "type Query { a: String b: Int }", "error": oerr.Error(), "diag": "after another root extended String and Int"})
+				} else if ob, berr := extract.FromRoot(other); berr == nil {
+					if v := ref.CheckSchema(ob); len(v) > 0 {
+						c.Violation("c13-accepted-schema-fails-recheck", map[string]interface{}{"sdl": "type Query { a: String b: Int }", "rules": v, "diag": "a fresh root after ANOTHER root loaded: " + ext})
+					}
+					for _, bn := range []string{"String", "Int"} {
+						if bt, _ := other.GetType(bn).(*ggql.Scalar); bt != nil && len(bt.Dirs) > 0 {
+							c.Violation("c13-root-state-shared", map[string]interface{}{"diag": fmt.Sprintf("built-in scalar %s of a fresh root carries %d directive use(s) another root loaded", bn, len(bt.Dirs)), "other_root_loaded": ext})
+						}
+					}
+				}
+				again, aerr := loadSDL(sdl)
+				if aerr == nil {
+					aerr = again.ParseString(ext)
+				}
+				if aerr != nil {
+					c.Violation("c13-wellformed-rejected", map[string]interface{}{"sdl": sdl, "later_load": ext, "error": aerr.Error(), "diag": "the same two documents were accepted by another root a moment ago"})
+				}
+				c.Count("roots_checked_for_state_shared_with_another_root", 1)
+			}
+		}
 		if i < 1 {
 			c.Sample(map[string]interface{}{"wellformed_sdl": clip(sdl, 1200)})
 		}
